@@ -13,17 +13,17 @@ import (
 // C05 — operations queue under a controlled schedule (see lean/WebrtcVerif/Drv/C05.lean for the grammar).
 
 type c05Prog struct {
-	negEnq   bool
+	mode     int // what the worker's onNegotiationNeeded callback does: 0 nothing, 1 enqueue a check, 2 as PeerConnection.onNegotiationNeeded
 	specs    []string
 	sched    []string
 	children map[int][]int
 }
 
 func c05Parse(a []string) (*c05Prog, bool) {
-	if len(a) < 2 || a[0] != "run" || (a[1] != "neg=0" && a[1] != "neg=1") {
+	if len(a) < 2 || a[0] != "run" || (a[1] != "neg=0" && a[1] != "neg=1" && a[1] != "neg=2") {
 		return nil, false
 	}
-	p := &c05Prog{negEnq: a[1] == "neg=1", children: map[int][]int{}}
+	p := &c05Prog{mode: int(a[1][4] - '0'), children: map[int][]int{}}
 	i := 2
 	for ; i < len(a) && a[i] != "sched"; i++ {
 		p.specs = append(p.specs, a[i])
@@ -83,10 +83,40 @@ func c05Run(p *c05Prog, online func(names []string) string, onlineSteps int) str
 			}
 		}
 	}
+	checks := 0
+	enqCheck := func() {
+		logMu.Lock()
+		checks++
+		id := 900 + checks
+		logMu.Unlock()
+		q.Enqueue(opFn(id))
+	}
+	// what PeerConnection.onNegotiationNeeded does (peerconnection.go): if the queue is not empty, ask for
+	// another call at the end of the chain and leave; otherwise queue the check. The two halves are separate
+	// critical sections in the real code, hence the yield.
+	negFn := func(who string) {
+		empty := q.IsEmpty()
+		if empty {
+			rec(who + "e")
+		} else {
+			rec(who + "b")
+		}
+		s.Yield("neg.tested")
+		if !empty {
+			q.SetFlag(true)
+			rec(fmt.Sprintf("%ss@%d", who, s.StepNo()))
+
+			return
+		}
+		enqCheck()
+	}
 	q = webrtc.NewVerifOperations(func() {
 		negCalls++
-		if p.negEnq {
-			q.Enqueue(opFn(900 + negCalls))
+		switch p.mode {
+		case 1:
+			enqCheck()
+		case 2:
+			negFn("n")
 		}
 	})
 	nd, nc := 0, 0
@@ -126,7 +156,12 @@ func c05Run(p *c05Prog, online func(names []string) string, onlineSteps int) str
 				}
 			})
 		case sp == "F":
-			s.Go(name, func() { q.SetFlag(true) })
+			s.Go(name, func() {
+				q.SetFlag(true)
+				rec(fmt.Sprintf("f@%d", s.StepNo()))
+			})
+		case sp == "N":
+			s.Go(name, func() { negFn("a") })
 		default:
 			return "bad-op"
 		}
@@ -163,11 +198,67 @@ func c05Run(p *c05Prog, online func(names []string) string, onlineSteps int) str
 		}
 	}
 	s.mu.Unlock()
+	b01 := map[bool]int{false: 0, true: 1}
+	flag, empty := b01[q.Flag()], b01[q.IsEmpty()]
 	s.Release()
 	logMu.Lock()
 	defer logMu.Unlock()
 
-	return fmt.Sprintf("%s | %s | neg %d | %s", strings.Join(ev, " "), strings.Join(log, " "), negCalls, strings.Join(states, " "))
+	return fmt.Sprintf("%s | %s | neg %d flag %d empty %d | %s", strings.Join(ev, " "), strings.Join(log, " "), negCalls, flag, empty, strings.Join(states, " "))
+}
+
+// c05Directed builds a neg=2 line whose schedule puts an enqueue between the worker's last pop and its
+// flag test + callback, with the flag set: T0 enqueues k ops, T1 sets the flag (F) or finds the queue busy
+// (N), W0 runs the ops and pops nil, T2 enqueues one more op, W0 loads the flag, clears it and calls the
+// callback, which finds the queue busy. 0–3 random extra steps are mixed in, random others run at the end.
+func c05Directed(r interface{ Intn(int) int }, next int) string {
+	k := 1 + r.Intn(2)
+	first := []string{}
+	for i := 0; i < k; i++ {
+		first = append(first, strconv.Itoa(next))
+		next++
+	}
+	setter := "F"
+	if r.Intn(2) == 0 {
+		setter = "N"
+	}
+	specs := []string{"E:" + strings.Join(first, ","), setter, "E:" + strconv.Itoa(next)}
+	next++
+	for x := r.Intn(3); x > 0; x-- {
+		specs = append(specs, []string{"N", "D", "E:" + strconv.Itoa(next), "F"}[r.Intn(4)])
+		next++
+	}
+	sched := []string{}
+	for i := 0; i < k; i++ {
+		sched = append(sched, "T0")
+	}
+	sched = append(sched, "T1")
+	if setter == "N" {
+		sched = append(sched, "T1")
+	}
+	for i := 0; i <= k; i++ {
+		sched = append(sched, "W0")
+	}
+	sched = append(sched, "T2", "W0", "W0", "W0")
+	for x := r.Intn(4); x > 0; x-- {
+		at := r.Intn(len(sched) + 1)
+		var n string
+		if r.Intn(3) == 0 {
+			n = fmt.Sprintf("W%d", r.Intn(2))
+		} else {
+			n = fmt.Sprintf("T%d", r.Intn(len(specs)))
+		}
+		sched = append(sched[:at], append([]string{n}, sched[at:]...)...)
+	}
+	for x := r.Intn(8); x > 0; x-- {
+		if r.Intn(2) == 0 {
+			sched = append(sched, fmt.Sprintf("W%d", 1+r.Intn(2)))
+		} else {
+			sched = append(sched, fmt.Sprintf("T%d", r.Intn(len(specs))))
+		}
+	}
+
+	return fmt.Sprintf("run neg=2 %s sched %s", strings.Join(specs, " "), strings.Join(sched, " "))
 }
 
 func init() {
@@ -175,9 +266,13 @@ func init() {
 		Procs: 16,
 		Rule: "programs of 1–3 enqueuers (1–3 ops each; ~1/3 of ops enqueue 1–2 children from inside their body), " +
 			"0–2 Done() callers, 0–1 GracefulClose() callers (followed by 0–2 late enqueues), 0–1 flag setters, " +
-			"negotiation callback enqueueing or not; the schedule (which thread runs its next lock-delimited " +
-			"segment) is drawn step by step from the seeded PRNG among all threads incl. blocked ones, then every " +
-			"thread is drained in a fixed order. Each op line is executed on the real operations queue under the " +
+			"0–2 API goroutines doing what PeerConnection.onNegotiationNeeded does (IsEmpty; yield; set the flag or " +
+			"enqueue the check); the worker's negotiation callback does nothing (1/4), enqueues a check (1/4) or " +
+			"does what PeerConnection.onNegotiationNeeded does (1/2); the schedule (which thread runs its next " +
+			"lock-delimited segment) is drawn step by step from the seeded PRNG among all threads incl. blocked " +
+			"ones, then every thread is drained in a fixed order; half of the lines of the third kind start with a " +
+			"directed prefix (flag set; the worker pops nil; an enqueue; the worker's flag test and callback) with " +
+			"0–3 random extra steps mixed in. Each op line is executed on the real operations queue under the " +
 			"cooperative scheduler (verifYield hooks) and replayed by the Lean transition system. Non-trivial: " +
 			"distinct (program, schedule) lines with at least two threads.",
 		Gen: func(c *Ctx) {
@@ -215,8 +310,16 @@ func init() {
 				if r.Intn(3) == 0 {
 					specs = append(specs, "F")
 				}
+				for k := []int{0, 0, 1, 1, 1, 2}[r.Intn(6)]; k > 0; k-- {
+					specs = append(specs, "N")
+				}
 				r.Shuffle(len(specs), func(i, j int) { specs[i], specs[j] = specs[j], specs[i] })
-				p := &c05Prog{negEnq: r.Intn(2) == 0, specs: specs, children: map[int][]int{}}
+				p := &c05Prog{mode: []int{0, 1, 2, 2}[r.Intn(4)], specs: specs, children: map[int][]int{}}
+				if p.mode == 2 && r.Intn(2) == 0 {
+					c.Emit("%s", c05Directed(r, next))
+
+					continue
+				}
 				// blind schedule: names drawn without executing (non-runnable entries are skipped by both
 				// sides); sometimes the workers are starved for a while so that queues build up
 				steps := 4 + r.Intn(22)
@@ -238,11 +341,7 @@ func init() {
 					}
 					p.sched = append(p.sched, n)
 				}
-				neg := "neg=0"
-				if p.negEnq {
-					neg = "neg=1"
-				}
-				c.Emit("run %s %s sched %s", neg, strings.Join(specs, " "), strings.Join(p.sched, " "))
+				c.Emit("run neg=%d %s sched %s", p.mode, strings.Join(specs, " "), strings.Join(p.sched, " "))
 			}
 		},
 		Exec: func(a []string) string {
@@ -255,14 +354,29 @@ func init() {
 		},
 		Class: func(a []string, out string) string {
 			cl := []string{}
-			hasC, hasD := false, false
+			hasC, hasD, hasN, hasF := false, false, false, false
 			for _, t := range a {
+				if t == "sched" {
+					break
+				}
 				if strings.HasPrefix(t, "C:") {
 					hasC = true
 				}
 				if t == "D" {
 					hasD = true
 				}
+				if t == "N" {
+					hasN = true
+				}
+				if t == "F" {
+					hasF = true
+				}
+			}
+			if len(a) > 1 {
+				cl = append(cl, a[1])
+			}
+			if hasN {
+				cl = append(cl, "api")
 			}
 			if hasC {
 				cl = append(cl, "close")
@@ -270,14 +384,15 @@ func init() {
 			if hasD {
 				cl = append(cl, "done")
 			}
-			if strings.Contains(out, ":blocked ") {
-				cl = append(cl, "blocked-step")
-			}
-			if strings.Contains(out, "W1:") {
+			switch {
+			case strings.Contains(out, " ns@"):
+				// the worker's own callback found the queue busy and re-armed the flag
+				cl = append(cl, "worker-rearm")
+			case strings.Contains(out, " flag 1 ") && !hasF:
+				// at the end the request sits in the flag (API goroutine stored it after the worker left)
+				cl = append(cl, "flag-parked")
+			case strings.Contains(out, "W1:"):
 				cl = append(cl, "handoff")
-			}
-			if len(cl) == 0 {
-				return "enqueue-only"
 			}
 
 			return strings.Join(cl, "+")
@@ -288,7 +403,7 @@ func init() {
 				if t == "sched" {
 					break
 				}
-				if strings.Contains(t, ":") || t == "D" || t == "F" {
+				if strings.Contains(t, ":") || t == "D" || t == "F" || t == "N" {
 					n++
 				}
 			}
